@@ -71,6 +71,7 @@ func main() {
 	if fam("R") {
 		runReleaseAll()
 		runInitFail()
+		runChurnAll()
 		lap("release")
 	}
 	if fam("A") {
